@@ -361,6 +361,23 @@ def rule_accept_value(ck):
     hr = ck.func(W, "WebSocketClientConnection.headers_received")
     for c in [c for c in q.calls(hr.node) if q.call_attr(c) == "_process_server_headers"]:
         ck.ob(R, hr, c, len(c.args) >= 1 and q.dotted(c.args[0]) == "self.key", "the client validates the response against the key it sent (self.key)")
+    # the client treats only a 101 response as a completed handshake
+    hcfg = hr.cfg
+    pnodes = [n for n, c in hcfg.find(lambda x: isinstance(x, ast.Call) and q.call_attr(x) == "_process_server_headers")]
+    sl = [p_ for p_ in hr.params() if p_ != "self"][0]
+    stests = [t for t in hcfg.stmt_nodes(lambda n: n.kind == "test") if (sl + ".code") in q.paths_in(t.ast)]
+    ck.ob(R, hr, hr.node, bool(stests), "the client looks at the status code of the response before processing it as a handshake", construct="status tests: %d" % len(stests))
+    for t in stests:
+        codes = [100, 101, 102, 200, 204, 301, 400, 426, 500]
+        try:
+            passing = {c_ for c_ in codes if bool(q.fold(t.ast, {sl + ".code": c_}))}
+        except q.NotFoldable:
+            raise AnalysisError("headers_received: status test %s does not fold" % q.unparse(t.ast))
+        for pn in pnodes:
+            via_true = _only_via(hcfg, pn, [(t.id, "true")])
+            via_false = _only_via(hcfg, pn, [(t.id, "false")])
+            okc = (via_true and passing == {101}) or (via_false and set(codes) - passing == {101})
+            ck.ob(R, hr, t.ast, okc, "the handshake response is processed only for status 101 (codes passing the test: %s)" % sorted(passing))
     ci = ck.func(W, "WebSocketClientConnection.__init__")
     keyst = q.stores_to(ci.node, "self.key")
     okk = len(keyst) == 1 and q.is_call(keyst[0].value, "base64.b64encode") and keyst[0].value.args and q.is_call(keyst[0].value.args[0], "os.urandom") and q.is_const(keyst[0].value.args[0].args[0], 16)
@@ -481,6 +498,33 @@ def rule_extensions(ck):
         if q.is_call(c, hp + ".set_header"):
             v = c.args[1] if len(c.args) > 1 else None
             ck.ob(R, ac, c, v is not None and q.call_attr(v) == "_encode_header" and v.args and q.is_const(v.args[0], "permessage-deflate"), "server: the response names permessage-deflate")
+    # what is announced is what the compressors were built from (same parameter object, server side literal)
+    crc = [c for _n, c in targets if q.is_call(c, "self._create_compressors")]
+    enc = [c.args[1] for _n, c in targets if q.is_call(c, hp + ".set_header") and len(c.args) > 1 and q.call_attr(c.args[1]) == "_encode_header"]
+    for c in crc:
+        for e in enc:
+            same = len(c.args) >= 2 and len(e.args) >= 2 and q.unparse(c.args[1]) == q.unparse(e.args[1])
+            ck.ob(R, ac, c, same, "server: the parameters announced in the response are the agreed parameters the compressors were created from (same object)")
+    # the agreed parameter object may only lose a parameter that was offered without a value; no other mutation
+    if crc and len(crc[0].args) >= 2:
+        ptxt = q.unparse(crc[0].args[1])
+        facts = must_facts(cfg)
+        for x in q.walk_body(ac.node):
+            mut = None
+            if isinstance(x, ast.Delete) and any(isinstance(t, ast.Subscript) and q.unparse(t.value) == ptxt for t in x.targets):
+                mut = "del"
+            elif isinstance(x, (ast.Assign, ast.AugAssign)) and any(isinstance(t, ast.Subscript) and q.unparse(t.value) == ptxt for t in (x.targets if isinstance(x, ast.Assign) else [x.target])):
+                mut = "store"
+            elif isinstance(x, ast.Call) and isinstance(x.func, ast.Attribute) and q.unparse(x.func.value) == ptxt and x.func.attr in ("pop", "popitem", "update", "clear", "setdefault", "__delitem__", "__setitem__"):
+                mut = x.func.attr
+            if mut is None:
+                continue
+            ok = False
+            if mut == "del":
+                nodes = cfg.stmt_nodes(lambda n: n.ast is x)
+                key = q.unparse(x.targets[0].slice)
+                ok = bool(nodes) and all(any(pol and txt == "%s[%s] is None" % (ptxt, key) for (txt, pol) in facts[n.id]) for n in nodes)
+            ck.ob(R, ac, x, ok, "server: the agreed parameters are not altered between configuring the compressors and announcing them, except for withholding a parameter that was offered without a value")
     # the offer comes from the request header
     offer = [c for c in q.calls(ac.node) if q.is_call(c, "self._parse_extensions_header")]
     ck.ob(R, ac, ac.node, len(offer) == 1 and len(offer[0].args) == 1 and (q.dotted(offer[0].args[0]) or "").endswith("request.headers"), "server: the extension offer is parsed from the request headers", construct="offer from request: %d" % len(offer))
@@ -664,6 +708,10 @@ MUTANTS = [
     ("default origin check: suffix match", _in("WebSocketHandler.check_origin", replace_stmt(lambda st: isinstance(st, ast.Return), lambda st: [parse_stmt("return origin.endswith(host)")])), "C17.origin"),
     ("default origin check ignores the port (hostname)", _in("WebSocketHandler.check_origin", replace_expr(lambda n: isinstance(n, ast.Attribute) and n.attr == "netloc", lambda n: ast.Attribute(value=n.value, attr="hostname", ctx=ast.Load()))), "C17.origin"),
     ("default origin check compares with a different header", _in("WebSocketHandler.check_origin", replace_expr(lambda n: isinstance(n, ast.Constant) and n.value == "Host", lambda n: ast.Constant(value="X-Forwarded-Host"))), "C17.origin"),
+    ("server announces different parameters than it configured (empty parameter set echoed)", _in(P13 + "._accept_connection", replace_expr(lambda n: q.call_attr(n) == "_encode_header" if isinstance(n, ast.Call) else False, lambda n: parse_expr("httputil._encode_header('permessage-deflate', {})"))), "C17.extensions"),
+    ("server silently drops server_no_context_takeover from the response", _in(P13 + "._accept_connection", replace_stmt(lambda st: isinstance(st, ast.If) and "client_max_window_bits" in _src(st.test), lambda st: [st, parse_stmt("ext[1].pop('server_no_context_takeover', None)")])), "C17.extensions"),
+    ("empty Origin header bypasses the origin check (truthiness)", _in("WebSocketHandler.get", replace_expr(lambda n: isinstance(n, ast.Compare) and _src(n) == "origin is not None", lambda n: ast.Name(id="origin", ctx=ast.Load()))), "C17.gate"),
+    ("client processes any non-2xx response as a handshake", _in("WebSocketClientConnection.headers_received", replace_expr(lambda n: isinstance(n, ast.Compare) and "start_line.code" in _src(n), lambda n: parse_expr("start_line.code >= 200"))), "C17.accept-value"),
     ("server answers permessage-deflate although compression is disabled", _in(P13 + "._accept_connection", replace_expr(lambda n: isinstance(n, ast.BoolOp) and "permessage-deflate" in _src(n), lambda n: n.values[0])), "C17.extensions"),
     ("server answers deflate for any offered extension", _in(P13 + "._accept_connection", replace_expr(lambda n: isinstance(n, ast.BoolOp) and "permessage-deflate" in _src(n), lambda n: n.values[1])), "C17.extensions"),
     ("client silently accepts unknown extensions", _in(P13 + "._process_server_headers", _drop_else_raise), "C17.extensions"),
